@@ -227,6 +227,8 @@ impl Store {
     /// As such, there is also no guarantee that the data you see is
     /// already persisted.
     fn tables(&mut self) -> Result<&Tables<'_>> {
+        #[cfg(iroh_docs_verif)]
+        verif_hooks::maybe_age(&mut self.transaction);
         let guard = &mut self.transaction;
         let tables = match std::mem::take(guard) {
             CurrentTransaction::None => {
@@ -264,6 +266,8 @@ impl Store {
     /// To ensure that the data is persisted, acquire a snapshot of the database
     /// or call flush.
     fn modify<T>(&mut self, f: impl FnOnce(&mut Tables) -> Result<T>) -> Result<T> {
+        #[cfg(iroh_docs_verif)]
+        verif_hooks::maybe_age(&mut self.transaction);
         let guard = &mut self.transaction;
         let tables = match std::mem::take(guard) {
             CurrentTransaction::None => {
@@ -291,6 +295,34 @@ impl Store {
             _ => unreachable!(),
         };
         Ok(res)
+    }
+}
+
+/// Verification hooks (only with `--cfg iroh_docs_verif`): let a test make the open write
+/// transaction look older than `MAX_COMMIT_DELAY` at a chosen transaction access, which
+/// emulates a slow or suspended process.
+#[cfg(iroh_docs_verif)]
+pub mod verif_hooks {
+    use std::sync::atomic::{AtomicUsize, Ordering};
+
+    use super::{CurrentTransaction, MAX_COMMIT_DELAY};
+
+    /// When set to `n > 0`, the n-th next access to the shared transaction (`Store::tables` or
+    /// `Store::modify`) first ages an open write transaction beyond `MAX_COMMIT_DELAY`.
+    pub static AGE_TRANSACTION_AT_ACCESS: AtomicUsize = AtomicUsize::new(0);
+
+    pub(super) fn maybe_age(transaction: &mut CurrentTransaction) {
+        let fire = AGE_TRANSACTION_AT_ACCESS
+            .fetch_update(Ordering::SeqCst, Ordering::SeqCst, |n| n.checked_sub(1))
+            .map(|prev| prev == 1)
+            .unwrap_or(false);
+        if fire {
+            if let CurrentTransaction::Write(w) = transaction {
+                if let Some(older) = w.since.checked_sub(MAX_COMMIT_DELAY * 2) {
+                    w.since = older;
+                }
+            }
+        }
     }
 }
 
